@@ -437,6 +437,33 @@ def run_case(case, ctx):
     st.seen("class", "%s/%s/%s" % (case["cell"], mode, case["where"]))
     # history: the object that was written is edited where it is (sizes unchanged) and written again, to the SAME path that
     # was already written and read once; the second file / second reading must reflect the object as it is then
+    if case["s"] % 2 == 1:
+        # history on the object that was READ: strained (a new cell assigned, positions scaled with it), charges shifted, then
+        # written and read again - what is written must be the object as it is now, not what the file it came from said
+        strain = np.eye(3) + np.random.default_rng(case["s"]).uniform(-0.08, 0.08, (3, 3)) * (0.0 if case["cell"] == "tiny_tilt" else 1.0)
+        strain[np.triu_indices(3, 1)] = 0.0 if case["cell"] == "ortho" else strain[np.triu_indices(3, 1)]
+        strain = strain * np.array([1.25, 0.8, 1.1])[None, :]
+        newcell = np.array(b.cell, float).dot(strain)
+        fr = G.frac(np.array(b.cell, float), np.asarray(b.positions, float))
+        if case["s"] % 4 == 1:
+            b.cell = newcell
+        else:
+            b.cell = newcell.tolist()
+        b.positions = fr.dot(newcell)
+        b.charges = np.asarray(b.charges, float) + 0.125
+        w3 = dict(w, history="the re-read structure was strained (new cell assigned) and written again")
+
+        def fail3(msg, cls):
+            ctx.fail("write/read of the re-read structure after assigning it a new cell: %s" % msg, witness=dict(w3, clause=cls, new_cell=np.round(newcell, 6).tolist()))
+        try:
+            t5 = save(b, mode)
+            b5 = load(t5, how=case["s"] % 4)
+            compare_loaded(b5, b, mode, fail3)
+            st.count("second_writes_of_a_read_structure_after_a_new_cell_was_assigned")
+        except Exception as e:
+            if type(e).__name__ == "PostBroken":
+                raise
+            fail3("raised %s: %s" % (type(e).__name__, str(e)[:200]), "strained_write_raises")
     if case["s"] % 2 == 0:
         import os
         import shutil
@@ -501,6 +528,8 @@ def run_case(case, ctx):
 
 def requirements(stats, tier):
     need = []
+    if stats.get("second_writes_of_a_read_structure_after_a_new_cell_was_assigned") < (40 if tier == "quick" else 4000):
+        need.append("re-read structures written again after a new cell was assigned: %d" % stats.get("second_writes_of_a_read_structure_after_a_new_cell_was_assigned"))
     if stats.get("structures_with_numbers_in_extra_columns") < (10 if tier == "quick" else 2000):
         need.append("structures whose extra columns hold numbers (0, 0.0, 2.5 ...): %d" % stats.get("structures_with_numbers_in_extra_columns"))
     if stats.get("structures_with_a_cell_of_whole_numbers") < (10 if tier == "quick" else 2000):
